@@ -36,3 +36,5 @@ pub use crate::yaml::{
 };
 
 pub use crate::util::simd::escape::find_json_escape;
+
+pub use crate::text::utf8::verif_err_at as utf8_err_at;
